@@ -197,9 +197,13 @@ def onBitfield (s : HState) (bs : Bytes) (rep : Rep) : FRes :=
   | _ => none
 
 /-- First half of `handle_request`: consult the manager unless the requested piece is the loaded one. -/
+def needsConsult (s : HState) (idx : Nat) : Bool :=
+  match s.pieceTx with
+  | some (ti, _) => decide (ti ≠ idx)
+  | none => true
+
 def consultRequest (disk : Bytes → Option Bytes) (s : HState) (idx : Nat) (rep : Rep) : Option (HState × List HOut × Bool) :=
-  let consult : Bool := match s.pieceTx with | some (ti, _) => decide (ti ≠ idx) | none => true
-  if consult then
+  if needsConsult s idx then
     match rep with
     | .load li h =>
       match disk h with
